@@ -213,12 +213,210 @@ def run(rep, tier):
         rep.error("E3 explored no path")
 
 
+# ---------------------------------------------------------------------------------------------------------------------
+# structural families: (label, primitive, args spec, kwargs, differentiated argnums)
+#   args spec item: ("A", (dim names...)[, kind]) = array whose dims are the named symbols (an int literal in the tuple = that fixed size),
+#                   ("lit", value) = a literal argument
+def _struct_cases(tier):
+    C = []
+    A = lambda *dims, kind="real": ("A", dims, kind)
+    for sa, sb in ((("k",), ("k",)), (("k",), ("k", "m")), (("n", "k"), ("k",)), (("n", "k"), ("k", "m")), (("b", "n", "k"), ("k", "m")), (("n", "k"), ("b", "k", "m")),
+                   (("b", "n", "k"), ("b", "k", "m")), (("b", "n", "k"), ("k",)), (("k",), ("b", "k", "m")), ((1, "n", "k"), ("b", "k", "m")), (("c", 1, "n", "k"), ("b", "k", "m"))):
+        C.append((f"matmul{sa}x{sb}", "matmul", [A(*sa), A(*sb)], {}, (0, 1)))
+    for axes in (None, (1, 0), (-1, 0), (0, -1)):
+        C.append((f"transpose({axes})", "transpose", [A("a", "b"), ("lit", axes)], {}, (0,)))
+    for axes in ((2, 0, 1), (1, 2, 0), (-1, 0, 1), (0, -1, -2), (-2, -1, 0)):
+        C.append((f"transpose({axes})", "transpose", [A("a", "b", "c"), ("lit", axes)], {}, (0,)))
+    for a1, a2 in ((0, 1), (0, 2), (-1, 0), (1, -1)):
+        C.append((f"swapaxes({a1},{a2})", "swapaxes", [A("a", "b", "c"), ("lit", a1), ("lit", a2)], {}, (0,)))
+    for s_, d_ in ((0, 2), (2, 0), (-1, 0), (0, -1), ((0, 1), (2, 0))):
+        C.append((f"moveaxis({s_},{d_})", "moveaxis", [A("a", "b", "c"), ("lit", s_), ("lit", d_)], {}, (0,)))
+    for ax, st in ((2, 0), (0, 3), (1, 0), (0, 2), (2, 1), (1, 3)):
+        C.append((f"rollaxis({ax},{st})", "rollaxis", [A("a", "b", "c"), ("lit", ax), ("lit", st)], {}, (0,)))
+    C.append(("reshape(flat)", "reshape", [A("a", "b"), ("shape", ("a*b",))], {}, (0,)))
+    C.append(("reshape(2-D->3-D)", "reshape", [A("a", "b"), ("shape", ("a", 1, "b"))], {}, (0,)))
+    C.append(("ravel", "ravel", [A("a", "b", "c")], {}, (0,)))
+    for ax in (0, 1, -1, 2, (0, 2)):
+        C.append((f"expand_dims({ax})", "expand_dims", [A("a", "b"), ("lit", ax)], {}, (0,)))
+    for ax in (None, 0, -1, (0, 2)):
+        C.append((f"squeeze({ax})", "squeeze", [A(1, "b", 1)], {"axis": ax}, (0,)))
+    for f_ in ("atleast_1d", "atleast_2d", "atleast_3d"):
+        for dims in ((), ("a",), ("a", "b"), ("a", "b", "c")):
+            C.append((f"{f_}{dims}", f_, [A(*dims)], {}, (0,)))
+    for f_ in ("flipud", "fliplr", "triu", "tril"):
+        C.append((f_, f_, [A("a", "b")], {}, (0,)))
+    for k_ in (1, 2, 3, -1):
+        C.append((f"rot90({k_})", "rot90", [A("a", "b"), ("lit", k_)], {}, (0,)))
+    for sh, ax in ((1, None), (2, 0), (-1, 1)):
+        C.append((f"roll({sh},{ax})", "roll", [A("a", "b"), ("lit", sh)], {"axis": ax}, (0,)))
+    for ax in (None, 0, 1, -1, -2):
+        C.append((f"cumsum({ax})", "cumsum", [A("a", "b")], {"axis": ax}, (0,)))
+    for ax in (0, 1, -1, -2):
+        other = ("a2", "b") if ax in (0, -2) else ("a", "b2")
+        third = ("a3", "b") if ax in (0, -2) else ("a", "b3")
+        C.append((f"concatenate_args(axis={ax})", "concatenate_args", [("lit", ax), A("a", "b"), A(*other), A(*third)], {}, (1, 2, 3)))
+    for ax in (None, 0, 1, -1, -2):
+        C.append((f"repeat(2,axis={ax})", "repeat", [A("a", "b"), ("lit", 2)], {"axis": ax}, (0,)))
+    C.append(("repeat(3,axis=-1) size-1", "repeat", [A("a", 1), ("lit", 3)], {"axis": -1}, (0,)))
+    for reps in (2, (2,), (2, 1), (1, 2), (2, 3), (2, 1, 2)):
+        C.append((f"tile({reps}) 2-D", "tile", [A("a", "b"), ("lit", reps)], {}, (0,)))
+        C.append((f"tile({reps}) 1-D", "tile", [A("a",), ("lit", reps)], {}, (0,)))
+    for w in (1, (1, 2), ((1, 2),), ((1, 0), (0, 2))):
+        C.append((f"pad({w})", "pad", [A("a", "b"), ("lit", w), ("lit", "constant")], {}, (0,)))
+    for sc, sx_, sy in ((("a", "b"), ("a", "b"), ("a", "b")), (("a", "b"), ("b",), ("a", 1)), (("b",), (), ("b",)), (("a", "b"), (), ()), (("b",), ("a", "b"), ("b",))):
+        C.append((f"where{sc}{sx_}{sy}", "where", [("A", sc, "bool"), A(*sx_), A(*sy)], {}, (1, 2)))
+    C.append(("clip", "clip", [A("a", "b"), ("lit", 0.5), ("lit", 2.0)], {}, (0,)))
+    for src, dst in (((1, "b"), ("a", "b")), (("a", 1), ("a", "b")), ((1, 1), ("a", "b"))):
+        C.append((f"broadcast_to{src}->{dst}", "broadcast_to", [A(*src), ("shape", dst)], {}, (0,)))
+    return C
+
+
+def _sym_args(L, spec, syms):
+    """builds the abstract arguments; dims with the same name share one symbolic size"""
+    def dim(d):
+        if isinstance(d, int):
+            return d
+        if "*" in d:
+            r = 1
+            for q in d.split("*"):
+                r = r * dim(q)
+            return r
+        if d not in syms:
+            v = L.int(d)
+            if L.model is None:
+                cx.assume(v >= 0)
+            syms[d] = v
+        return syms[d]
+    out = []
+    for it in spec:
+        if it[0] == "A":
+            out.append(sx.SArr(tuple(dim(d) for d in it[1]), it[2] if len(it) > 2 else "real"))
+        elif it[0] == "shape":
+            out.append(tuple(dim(d) for d in it[1]))
+        else:
+            out.append(it[1])
+    return out
+
+
+def run_struct(rep, tier):
+    rv, rj, anp, dropped = load()
+    cases = _struct_cases(tier)
+    rep.bound(f"E3 structural families: {len(cases)} call forms (matmul rank pairs incl. batch broadcasting, transpose/swapaxes/moveaxis/rollaxis, reshape/ravel/expand_dims/squeeze/atleast_nd, "
+              "flips/rot90/roll/triu/tril/cumsum, concatenate, repeat, tile, pad, where, clip, broadcast_to) enumerated; all dimension sizes symbolic")
+    npaths = 0
+    for label, name, spec, kwargs, argnums in cases:
+        for a in argnums:
+            for mode in ("vjp", "jvp"):
+                case = f"{label}|arg{a}|{mode}"
+
+                def harness(L, name=name, spec=spec, kwargs=kwargs, a=a, mode=mode):
+                    _state["oblig"] = []
+                    args = _sym_args(L, spec, {})
+                    ans = getattr(anp, name)(*args, **kwargs)
+                    _state["oblig"] = []   # acceptance conditions of the PRIMAL call are preconditions, not obligations
+                    tgt = args[a]
+                    if mode == "vjp":
+                        if (name, a) in rv.vjps:
+                            mk = rv.vjps[(name, a)]
+                            if mk is None:
+                                return None
+                            vj = mk(ans, *args, **kwargs)
+                        elif name in rv.vjp_argnum:
+                            vj = rv.vjp_argnum[name](a, ans, tuple(args), kwargs)
+                        else:
+                            return None
+                        g = sx.SArr(sx.shape_of(ans), sx.kind_of(ans))
+                        res = vj(g)
+                        want = (sx.shape_of(tgt), sx.kind_of(tgt))
+                    else:
+                        g = sx.SArr(sx.shape_of(tgt), sx.kind_of(tgt))
+                        if name in rj.linear or rj.jvps.get((name, a)) == "same":
+                            res = getattr(anp, name)(*[g if i == a else v for i, v in enumerate(args)], **kwargs)
+                        elif (name, a) in rj.jvps and callable(rj.jvps[(name, a)]):
+                            res = rj.jvps[(name, a)](g, ans, *args, **kwargs)
+                        elif name in rj.jvp_argnum:
+                            res = rj.jvp_argnum[name](a, g, ans, tuple(args), kwargs)
+                        else:
+                            return None
+                        want = (sx.shape_of(ans), sx.kind_of(ans))
+                    if not isinstance(res, sx.SArr):
+                        return None     # e.g. a SparseObject-producing forward rule: outside the shape abstraction
+                    return (sx.shape_of(res), sx.kind_of(res)), list(_state["oblig"]), want
+
+                try:
+                    results, _ = cx.explore(harness)
+                except (shadow.NotModelled, CheckerError) as e:
+                    rep.uncover(f"E3: {case}: {e}"[:160])
+                    continue
+                for r in results:
+                    if r.exc is None and r.value is None:
+                        continue
+                    npaths += 1
+                    if r.exc is None:
+                        res, obl, want = r.value
+                        r.value = (res, obl)
+                    else:
+                        res, want = None, (None, None)
+                        if isinstance(r.exc, (shadow.NotModelled, NotImplementedError, NameError, AssertionError, TypeError, IndexError, AttributeError)):
+                            rep.note(f"E3: {case}: {type(r.exc).__name__}: {str(r.exc)[:60]}") if len(rep.notes) < 40 else None
+                            continue
+                    _check_leaf(rep, tier, f"{mode}:{name}:{case}", r, res, want[0], want[1], case,
+                                dict(module="contracts.rules_shape", family="struct", label=label, argnum=a, mode=mode))
+    rep.extra["e3_struct_paths"] = npaths
+
+
+def _native_struct(spec):
+    import numpy as onp
+
+    import autograd.numpy as anp
+    from autograd.core import make_jvp, make_vjp
+    sizes = spec.get("sizes", {})
+    case = next((c for c in _struct_cases("thorough") if c[0] == spec["label"]), None)
+    if case is None:
+        return True, "case removed", ""
+    label, name, aspec, kwargs, argnums = case
+
+    def dim(d):
+        if isinstance(d, int):
+            return d
+        if "*" in d:
+            r = 1
+            for q in d.split("*"):
+                r *= dim(q)
+            return r
+        return max(0, int(sizes.get(d, 2)))
+    args = []
+    for it in aspec:
+        if it[0] == "A":
+            shp = tuple(dim(d) for d in it[1])
+            n = int(onp.prod(shp)) if shp else 1
+            arr = (onp.arange(n, dtype=float) * 0.37 + 0.4).reshape(shp)
+            args.append(arr > 1.0 if (len(it) > 2 and it[2] == "bool") else arr)
+        elif it[0] == "shape":
+            args.append(tuple(dim(d) for d in it[1]))
+        else:
+            args.append(it[1])
+    a = spec["argnum"]
+    f = lambda z: getattr(anp, name)(*[z if i == a else v for i, v in enumerate(args)], **kwargs)
+    try:
+        if spec["mode"] == "vjp":
+            vjp, val = make_vjp(f, args[a])
+            r = onp.asarray(vjp(onp.ones(onp.shape(val))))
+            return r.shape == onp.shape(args[a]), f"gradient shape {r.shape} for argument shape {onp.shape(args[a])}", "the argument's shape"
+        val, t = make_jvp(f, args[a])(onp.ones(onp.shape(args[a])))
+        return onp.shape(t) == onp.shape(val), f"tangent shape {onp.shape(t)} for output shape {onp.shape(val)}", "the output's shape"
+    except Exception as e:
+        return True, f"raises {type(e).__name__}: {str(e)[:80]} (allowed)", "-"
+
+
 def replay(spec):
     """Natively: the real autograd on float arrays of the concrete sizes of the counter-model; vspace(result) vs vspace(argument/output)."""
     import numpy as onp
 
     import autograd.numpy as anp
     from autograd.core import make_jvp, make_vjp
+    if spec.get("family") == "struct":
+        return _native_struct(spec)
     sizes = spec.get("sizes", {})
 
     def arr(tag, rank, kind):
